@@ -54,14 +54,12 @@ func convertPathToURL(path string, baseDir string, baseURL *url.URL) (string, er
 	if err != nil {
 		return "", fmt.Errorf("Cannot make relative path for %q: %v", path, err)
 	}
-	var result *url.URL
+	// A file name is a path, not a URL reference: build the reference from the path so that
+	// characters such as '#', '?', '%' and ':' are percent-encoded instead of being parsed.
+	ref := &url.URL{Path: filepath.ToSlash(relPath)}
+	result := ref
 	if baseURL != nil {
-		result, err = baseURL.Parse(filepath.ToSlash(relPath))
-	} else {
-		result, err = url.Parse(filepath.ToSlash(relPath))
-	}
-	if err != nil {
-		return "", fmt.Errorf("Failed to construct URL for %s. err: %v", path, err)
+		result = baseURL.ResolveReference(ref)
 	}
 	return result.String(), nil
 }
